@@ -241,7 +241,10 @@ def fast_load_real(mods, ms, block, regs, fields, mem):
            'timeout': 10 ** 9, 'tracefile': None, 'trace_line': None, 'word_fmt': None}
     tracer = loadtracer.LoadTracer(ms.sim, blocks, cfg, None)
     ok = [None]
-    quiet(lambda: ok.__setitem__(0, tracer.fast_load(ms.sim)))
+    try:
+        quiet(lambda: ok.__setitem__(0, tracer.fast_load(ms.sim)))
+    except Exception as e:
+        return None, f'exception {type(e).__name__}'
     return ok[0], ms.result(simcorr.Tracer(()))
 
 
@@ -316,6 +319,8 @@ def corr_exec(chk, mods):
         # phase 2: fast_load of the block bin2tap wrote
         okf, r2 = fast_load_real(mods, ms, main_block, regs1, fields1, mem1)
         add(f'fastload ; {nums(main_block)} ; {state_line(regs1, fields1, mem1, ins)}', r2, 'fastload-main', key)
+        if r2.startswith('exception'):
+            continue
         p = r2.split(' ; ')
         regs2, fields2 = list(map(int, p[0].split())), list(map(int, p[1].split()))
         mem2 = dict(mem1)
@@ -479,10 +484,28 @@ def run48(mods, case, scratch, rng_data):
     ext = case['ext']
     src = case.get('input', 'bin')
     if src == 'bin':
+        # the binary file may hold bytes before / after the converted range (--begin / --end), and ORG may be left to
+        # its default (65536 minus the file length)
+        pre, post = case.get('pre', 0), case.get('post', 0)
         infile = os.path.join(scratch, 'in.bin')
         with open(infile, 'wb') as f:
-            f.write(data)
-        args = ['-o', str(org)]
+            f.write(bytes(rng_data.randrange(256) for _ in range(pre)) + data + bytes(rng_data.randrange(256) for _ in range(post)))
+        args = [] if case.get('no_org') else ['-o', str(org - pre)]
+        if pre or case.get('begin_arg'):
+            args += ['-b', str(org)]
+        if post or case.get('end_arg'):
+            args += ['-e', str(org + ln)]
+    elif src.endswith('-128'):
+        # a 128K snapshot with RAM bank `page` at 49152-65535, converted without the 128K options: the binary is the
+        # 64K view of the snapshot (banks 5, 2 and the paged-in bank)
+        page = case['page']
+        banks = [[rng_data.randrange(256) for _ in range(16384)] for _ in range(8)]
+        for i, b in enumerate(data):
+            a = org + i
+            banks[(5, 2, page)[a // 16384 - 1]][a % 16384] = b
+        infile = os.path.join(scratch, f'in.{src[:-4]}')
+        snapshot.write_snapshot(infile, banks, [], [f'7ffd={page}'], '128K')
+        args = ['-b', str(org), '-e', str(org + ln)]
     else:
         # a 48K snapshot holding the data; converted with --begin/--end
         ram = [rng_data.randrange(256) for _ in range(49152)]
@@ -493,7 +516,7 @@ def run48(mods, case, scratch, rng_data):
                 f.write(bytes(27) + bytes(ram))
         else:
             snapshot.write_snapshot(infile, ram, [], [])
-        args = ['-b', str(org), '-e', str(org + ln)]
+        args = ['-b', str(org)] + ([] if case.get('no_end') and org + ln == 65536 else ['-e', str(org + ln)])
     if case['start'] is not None:
         args += ['-s', str(start)]
     if case['stack'] is not None:
@@ -502,9 +525,19 @@ def run48(mods, case, scratch, rng_data):
         args += ['-c', str(clear)]
     if case['scr']:
         scr = bytes(rng_data.randrange(256) for _ in range(6912))
-        scrfile = os.path.join(scratch, 's.scr')
-        with open(scrfile, 'wb') as f:
-            f.write(scr)
+        if case['scr'] in ('z80', 'szx', 'sna'):
+            # the loading screen is taken from a snapshot (its display file)
+            scrfile = os.path.join(scratch, f"s.{case['scr']}")
+            sram = list(scr) + [rng_data.randrange(256) for _ in range(49152 - 6912)]
+            if case['scr'] == 'sna':
+                with open(scrfile, 'wb') as f:
+                    f.write(bytes(27) + bytes(sram))
+            else:
+                snapshot.write_snapshot(scrfile, sram, [], [])
+        else:
+            scrfile = os.path.join(scratch, 's.scr')
+            with open(scrfile, 'wb') as f:
+                f.write(scr)
         args += ['-S', scrfile]
     tape = os.path.join(scratch, f'out.{ext}')
     snap = os.path.join(scratch, f"out.{case.get('snap', 'z80')}")
@@ -599,10 +632,32 @@ def run128(mods, case, scratch, rng_data):
     return res, out.splitlines()[-2:]
 
 
+class CaseTimeout(BaseException):
+    pass
+
+
+CASE_CPU_LIMIT = 60    # CPU seconds of this process per case (the slowest case takes about 2): independent of machine load
+
+
 def run_case(mods, case, scratch, seed):
+    """One case on the real tools, under a CPU-time watchdog: a simulated LOAD that never ends (e.g. a tape clock that stops
+    advancing) is a failure of the property - no snapshot - and must not hang the check."""
     import random
+    import signal
     rng_data = random.Random(seed)
-    return (run48 if case['m'] == 48 else run128)(mods, case, scratch, rng_data)
+
+    def on_timer(signum, frame):
+        raise CaseTimeout(f'no result after {CASE_CPU_LIMIT} CPU seconds')
+
+    old = signal.signal(signal.SIGPROF, on_timer)
+    signal.setitimer(signal.ITIMER_PROF, CASE_CPU_LIMIT)
+    try:
+        return (run48 if case['m'] == 48 else run128)(mods, case, scratch, rng_data)
+    except CaseTimeout as e:
+        return [('hang', f'bin2tap -> tap2sna did not finish: {e}')], []
+    finally:
+        signal.setitimer(signal.ITIMER_PROF, 0)
+        signal.signal(signal.SIGPROF, old)
 
 
 def vkey(case, fails):
@@ -614,7 +669,7 @@ def vkey(case, fails):
 
 def check_case(chk, mods, case, seed, tag):
     fails, out = run_case(mods, case, chk.scratch, seed)
-    if fails and 'first-edge' not in case.get('cfg', {}):
+    if fails and 'first-edge' not in case.get('cfg', {}) and not any(k == 'hang' for k, _ in fails):
         # an interrupt accepted between EI and the first instruction of the program runs the ROM's keyboard
         # routine over whatever the binary put in the system variables: shift the tape by a fraction of a frame
         c2 = dict(case, cfg=dict(case.get('cfg', {}), **{'first-edge': 23456}))
@@ -722,6 +777,39 @@ def e2e(chk, mods):
             c.update(ext=ext(), cfg=dict(CFGS[n % len(CFGS)], **{'fast-load': n % 2}))
             go(c, 'e2e128-config')
 
+    # directed, deterministic: the ways of naming the binary that the random stream does not draw - a 128K snapshot
+    # converted as a 48K program (every paged-in bank; block across 49152), a binary file with bytes before / after
+    # the converted range (--begin / --end with --org), ORG left to its default, the loading screen taken from a snapshot
+    k = 0
+    for page in range(8):
+        for fmt in ('z80', 'szx'):
+            if (page + (fmt == 'szx')) % 2 and not chk.thorough:
+                continue
+            k += 1
+            if page in (2, 5):
+                org, ln = 49152 + 100 * k, 300          # the paged-in bank is also visible lower down: stay above 49152
+            else:
+                org, ln = 49152 - 37 * k, 37 * k + 200  # across the boundary between bank 2 and the paged-in bank
+            go({'m': 48, 'len': ln, 'org': org, 'start': org + 1, 'stack': None, 'clear': org - 1 - k, 'scr': False, 'ext': ('tap', 'pzx')[k % 2],
+                'cfg': {} if have_c else dict(fast_py), 'tstart': False, 'input': f'{fmt}-128', 'page': page}, 'e2e48-input-128k-snapshot')
+    for k, (pre, post, no_org, begin_arg, end_arg) in enumerate(((5, 0, False, False, False), (0, 7, False, False, False), (300, 300, False, False, False),
+                                                                 (0, 0, True, False, False), (0, 0, True, True, True), (40, 0, True, False, False),
+                                                                 (0, 0, False, True, True), (1, 1, False, False, False))):
+        ln = (1, 2, 100, 1000, 3, 700, 16, 6912)[k]
+        org = 65536 - ln - post if no_org else (32768, 65536 - ln - post, 23296, 0, 0, 0, 40000, 16384)[k]
+        clear = None if k % 2 else org - 1 - k if org > 24200 else None
+        go({'m': 48, 'len': ln, 'org': org, 'start': None if k % 3 else org + ln - 1, 'stack': None if clear is not None or k in (3, 5) else 65000 - 1000 * k,
+            'clear': clear, 'scr': False, 'ext': ('pzx', 'tap')[k % 2], 'cfg': {} if have_c else dict(fast_py), 'tstart': False,
+            'pre': pre, 'post': post, 'no_org': no_org, 'begin_arg': begin_arg, 'end_arg': end_arg}, 'e2e48-begin-end-org')
+    for k, fmt in enumerate(('z80', 'sna', 'szx')):
+        # a 48K snapshot converted from BEGIN to the end of memory (END left to its default)
+        if k == chk.seed % 3 or chk.thorough:
+            go({'m': 48, 'len': 536 + k, 'org': 65000 - k, 'start': 65001, 'stack': None, 'clear': 64000 + k, 'scr': False, 'ext': ('pzx', 'tap')[k % 2],
+                'cfg': {} if have_c else dict(fast_py), 'tstart': False, 'input': fmt, 'no_end': True}, 'e2e48-begin-end-org')
+    for k, fmt in enumerate(('z80', 'szx', 'sna')):
+        go({'m': 48, 'len': 500 + k, 'org': 32768 + k, 'start': None, 'stack': None if k else 40000, 'clear': 30000 if k else None, 'scr': fmt,
+            'ext': ('tap', 'pzx')[k % 2], 'cfg': {} if have_c else dict(fast_py), 'tstart': False}, 'e2e48-screen-from-snapshot')
+
 
 # ---------------------------------------------------------------------------------------------
 
@@ -740,7 +828,10 @@ def run(chk):
                 'register states vs the model. e2e: bin2tap.main -> tap2sna.main, binaries of 1..49152 random bytes x ORG/START/STACK/CLEAR '
                 '(stack at every offset around the block ends, block over the printer buffer/system variables), x tap/pzx x screen x bin/z80/szx/sna '
                 'input x 48K/128K (bank subsets, 7ffd 0..63, loader address) x fast-load/full ROM loader, C and Python simulator, accelerators, '
-                'pause, polarity, first-edge, cmio, in-flags. non-trivial = distinct option class x data seed')
+                'pause, polarity, first-edge, cmio, in-flags; directed every run: a 128K snapshot converted as a 48K program (each paged-in bank, block across '
+                '49152), a binary file with bytes before/after the converted range (--org with --begin/--end), ORG/END left to their defaults, the loading '
+                'screen taken from a z80/szx/sna snapshot. Each case runs under a CPU-time watchdog (a LOAD that never ends is reported as a failure). '
+                'non-trivial = distinct option class x data seed')
     chk.trusted += ['hand models lean/SkoolVerif/Model/Bin2Tap.lean, FastLoad.lean tied by correspondence (harness/props/c12.py)',
                     'generated simulator model (translate/py2lean.py), validated here on the loader bytes against the real Simulator',
                     'ROM bytes 0x053F-0x0555, 0x05E2 (Model/RomEpilogue.lean) compared with skoolkit/resources/48.rom on every run',
